@@ -29,7 +29,7 @@ def true_set(cx, fn):
     return tr, fl
 
 
-@obligation("STEP.filter", ["C20"], floor=2, kind="guard (CNF) + effect exclusion",
+@obligation("STEP.filter", ["C20", "C10"], floor=2, kind="guard (CNF) + effect exclusion",
             why="local-only message types and responses from non-members offered to step must be rejected with an error and change no state")
 def step_filter(cx):
     rs = cx.fn("RawNode::step")
